@@ -955,6 +955,8 @@ class Run:
                 raise Unsupported("slice step")
             return ("slice", lo, hi)
         v = self.ev(node, frame, g)
+        if isinstance(v, PList) and v.plain():
+            return ("fancy", v.values())
         if isinstance(v, (list, tuple)):
             return ("fancy", list(v))
         return v
